@@ -238,9 +238,27 @@ def run_history(ops, evaluate, wf=None):
     return {"steps": steps, "final": final, "oracle": h.oracle[:20], "stray_double": int(_lib.interpose_stray_double())}
 
 
+def evaluate_direct(assignment, output_format, **inputs):
+    """An evaluation through the public TensorMethod(Problem(...)) route with the formats listed
+    INPUTS FIRST, output last (Problem keeps the order it is given; make_problem would reorder)."""
+    from returns.functions import raise_exception
+
+    from tensora.compile._tensor_method import TensorMethod
+    from tensora.expression import parse_assignment
+    from tensora.format import parse_format
+    from tensora.problem import Problem
+
+    a = parse_assignment(assignment).alt(raise_exception).unwrap()
+    fmts = {n: t.format for n, t in inputs.items() if isinstance(t, Tensor)}
+    if len(fmts) != len(inputs):
+        raise TypeError("non-Tensor input")
+    fmts[a.target.name] = parse_format(output_format).alt(raise_exception).unwrap()
+    return TensorMethod(Problem(a, fmts))(**inputs)
+
+
 def main():
     spec = json.loads(open(sys.argv[1]).read())
-    evaluate = evaluate_cffi if spec["backend"] == "cffi" else evaluate_tensora
+    evaluate = {"cffi": evaluate_cffi, "direct": evaluate_direct}.get(spec["backend"], evaluate_tensora)
     gc.collect()
     gc.freeze()  # the interpreter's own long-lived objects: keeps every later gc.collect() cheap
     with open(sys.argv[2], "a") as out:
